@@ -2,9 +2,6 @@
 package hc
 
 import (
-	"github.com/brutella/hc/db"
-	"github.com/brutella/hc/event"
-	"github.com/brutella/hc/hap"
 	"github.com/brutella/hc/util"
 
 	"hcverif/verif"
@@ -60,64 +57,5 @@ func Harness_C20_q_config_version() {
 	verif.Assert(next.version == want && next.id == wantID && verif.Eq(next.configHash, newHash), "id-number-hash-persist")
 	next.updateConfigHash(newHash)
 	verif.Assert(next.version == want, "unchanged-structure-keeps-the-number")
-	verif.Reach("end")
-}
-
-// (d) The device identity: an existing entity is returned unchanged and nothing is
-// regenerated; otherwise a fresh key pair is stored and every later start returns it.
-func Harness_C20_q_device_identity() {
-	dir := verif.TempDir("c20dev")
-	st, _ := util.NewFileStorage(dir)
-	database := db.NewDatabaseWithStorage(st)
-	name := "AA:BB:CC:DD:EE:FF"
-	existing := verif.Choice("existing", 2) == 1
-	pub, priv := verif.Bytes("pub", 32), verif.Bytes("priv", 64)
-	if existing {
-		database.SaveEntity(db.NewEntity(name, pub, priv))
-	}
-	d1, err := hap.NewSecuredDevice(name, "001-02-003", database)
-	verif.Assert(err == nil && d1 != nil, "device-created")
-	if existing {
-		verif.Assert(verif.Eq(d1.PublicKey(), pub) && verif.Eq(d1.PrivateKey(), priv), "existing-identity-kept")
-	} else {
-		verif.Assert(len(d1.PublicKey()) == 32 && len(d1.PrivateKey()) == 64, "fresh-key-pair")
-	}
-	// restart
-	st2, _ := util.NewFileStorage(dir)
-	d2, err := hap.NewSecuredDevice(name, "001-02-003", db.NewDatabaseWithStorage(st2))
-	verif.Assert(err == nil && verif.Eq(d2.PublicKey(), d1.PublicKey()) && verif.Eq(d2.PrivateKey(), d1.PrivateKey()), "identity-survives-restart")
-	es, _ := database.Entities()
-	verif.Assert(len(es) == 1, "one-device-entity")
-	verif.Reach("end")
-}
-
-// (e) Discoverability: sf = 1 exactly when no controller pairing is stored (the
-// accessory's own entity does not count); pair / unpair events update it.
-func Harness_C20_q_discoverable_flag() {
-	dir := verif.TempDir("c20sf")
-	st, _ := util.NewFileStorage(dir)
-	database := db.NewDatabaseWithStorage(st)
-	database.SaveEntity(db.NewEntity("AA:BB:CC:DD:EE:FF", make([]byte, 32), make([]byte, 64)))
-	n := verif.Choice("controllers", 3)
-	for i := 0; i < n; i++ {
-		database.SaveEntity(db.NewEntity("ctrl-"+string(rune('0'+i)), verif.Bytes("k"+string(rune('0'+i)), 32), nil))
-	}
-	cfg := &Config{name: "acc", id: "AA:BB:CC:DD:EE:FF", version: 1, state: 1, protocol: "1.0", discoverable: verif.Bool("stale-flag")}
-	t := &ipTransport{database: database, config: cfg}
-	verif.Assert(t.isPaired() == (n > 0), "paired-iff-a-controller-is-stored")
-	t.updateMDNSReachability()
-	verif.Assert(cfg.discoverable == (n == 0), "discoverable-iff-no-controller")
-	sf := cfg.txtRecords()["sf"]
-	verif.Assert((sf == "1") == (n == 0) && (sf == "0") == (n > 0), "sf-record")
-	// pairing / unpairing events
-	database.SaveEntity(db.NewEntity("ctrl-new", make([]byte, 32), nil))
-	t.Handle(event.DevicePaired{})
-	verif.Assert(!cfg.discoverable && cfg.txtRecords()["sf"] == "0", "paired-event-hides")
-	database.DeleteEntity(db.NewEntity("ctrl-new", nil, nil))
-	for i := 0; i < n; i++ {
-		database.DeleteEntity(db.NewEntity("ctrl-"+string(rune('0'+i)), nil, nil))
-	}
-	t.Handle(event.DeviceUnpaired{})
-	verif.Assert(cfg.discoverable && cfg.txtRecords()["sf"] == "1", "last-unpair-event-shows-again")
 	verif.Reach("end")
 }
